@@ -1,0 +1,323 @@
+//! Concurrency primitives routed through the verification seam (feature `verif_hooks`):
+//! tasks, time and join handles are provided by the installed [crate::verif::Hooks].
+#![allow(missing_docs)]
+use std::future::Future;
+use std::panic::AssertUnwindSafe;
+use std::pin::Pin;
+use std::sync::{Arc, Mutex};
+use std::task::{Context, Poll, Waker};
+
+use futures::stream::FuturesUnordered;
+use futures::{FutureExt, StreamExt};
+
+use crate::verif::{hooks, TaskCtl};
+
+/// Join error
+pub enum JoinError {
+    /// cancelled
+    Cancelled,
+    /// panicked
+    Panic(std::sync::Mutex<Box<dyn std::any::Any + Send + 'static>>),
+}
+impl JoinError {
+    /// is panic
+    pub fn is_panic(&self) -> bool {
+        matches!(self, Self::Panic(_))
+    }
+    /// is cancelled
+    pub fn is_cancelled(&self) -> bool {
+        matches!(self, Self::Cancelled)
+    }
+    /// into panic
+    pub fn into_panic(self) -> Box<dyn std::any::Any + Send + 'static> {
+        match self {
+            Self::Panic(p) => p.into_inner().unwrap_or_else(|e| e.into_inner()),
+            _ => panic!("not a panic"),
+        }
+    }
+}
+impl std::fmt::Debug for JoinError {
+    fn fmt(&self, f: &mut std::fmt::Formatter<'_>) -> std::fmt::Result {
+        match self {
+            Self::Cancelled => write!(f, "JoinError::Cancelled"),
+            Self::Panic(_) => write!(f, "JoinError::Panic"),
+        }
+    }
+}
+impl std::fmt::Display for JoinError {
+    fn fmt(&self, f: &mut std::fmt::Formatter<'_>) -> std::fmt::Result {
+        std::fmt::Debug::fmt(self, f)
+    }
+}
+impl std::error::Error for JoinError {}
+
+/// What awaiting a [JoinHandle] yields on failure: the error type the selected backend exposes
+#[cfg(not(feature = "async-std"))]
+pub type JoinErr = JoinError;
+/// What awaiting a [JoinHandle] yields on failure: the error type the selected backend exposes
+#[cfg(feature = "async-std")]
+pub type JoinErr = ();
+
+#[cfg(not(feature = "async-std"))]
+fn to_join_err(e: JoinError) -> JoinErr {
+    e
+}
+#[cfg(feature = "async-std")]
+fn to_join_err(_e: JoinError) -> JoinErr {}
+
+struct Slot<T> {
+    result: Option<Result<T, JoinError>>,
+    done: bool,
+    waker: Option<Waker>,
+}
+struct Completer<T>(Arc<Mutex<Slot<T>>>);
+impl<T> Completer<T> {
+    fn complete(&self, r: Result<T, JoinError>) {
+        let w = {
+            let mut s = self.0.lock().unwrap();
+            if s.done {
+                return;
+            }
+            s.done = true;
+            s.result = Some(r);
+            s.waker.take()
+        };
+        if let Some(w) = w {
+            w.wake();
+        }
+    }
+}
+impl<T> Drop for Completer<T> {
+    fn drop(&mut self) {
+        self.complete(Err(JoinError::Cancelled));
+    }
+}
+
+/// Join handle
+pub struct JoinHandle<T> {
+    slot: Arc<Mutex<Slot<T>>>,
+    ctl: Box<dyn TaskCtl>,
+}
+impl<T> std::fmt::Debug for JoinHandle<T> {
+    fn fmt(&self, f: &mut std::fmt::Formatter<'_>) -> std::fmt::Result {
+        write!(f, "JoinHandle")
+    }
+}
+impl<T> JoinHandle<T> {
+    /// abort
+    pub fn abort(&self) {
+        self.ctl.abort()
+    }
+    /// finished
+    pub fn is_finished(&self) -> bool {
+        self.slot.lock().unwrap().done
+    }
+}
+impl<T> Future for JoinHandle<T> {
+    type Output = Result<T, JoinErr>;
+    fn poll(self: Pin<&mut Self>, cx: &mut Context<'_>) -> Poll<Self::Output> {
+        let mut s = self.slot.lock().unwrap();
+        if let Some(r) = s.result.take() {
+            Poll::Ready(r.map_err(to_join_err))
+        } else if s.done {
+            Poll::Ready(Err(to_join_err(JoinError::Cancelled)))
+        } else {
+            s.waker = Some(cx.waker().clone());
+            Poll::Pending
+        }
+    }
+}
+
+fn spawn_inner<F>(name: Option<&str>, future: F) -> JoinHandle<F::Output>
+where
+    F: Future + 'static,
+    F::Output: 'static,
+{
+    let slot = Arc::new(Mutex::new(Slot {
+        result: None,
+        done: false,
+        waker: None,
+    }));
+    let completer = Completer(slot.clone());
+    let wrapped = async move {
+        let r = AssertUnwindSafe(future).catch_unwind().await;
+        completer.complete(r.map_err(|p| JoinError::Panic(std::sync::Mutex::new(p))));
+    };
+    let ctl = hooks().spawn(name, Box::pin(wrapped));
+    JoinHandle { slot, ctl }
+}
+
+/// spawn
+pub fn spawn<F>(future: F) -> JoinHandle<F::Output>
+where
+    F: Future + Send + 'static,
+    F::Output: Send + 'static,
+{
+    spawn_inner(None, future)
+}
+/// spawn local
+pub fn spawn_local<F>(future: F) -> JoinHandle<F::Output>
+where
+    F: Future + 'static,
+{
+    spawn_inner(None, future)
+}
+/// spawn named
+pub fn spawn_named<F>(name: Option<&str>, future: F) -> JoinHandle<F::Output>
+where
+    F: Future + Send + 'static,
+    F::Output: Send + 'static,
+{
+    spawn_inner(name, future)
+}
+
+/// JoinSet
+pub struct JoinSet<T> {
+    set: FuturesUnordered<JoinHandle<T>>,
+}
+impl<T> std::fmt::Debug for JoinSet<T> {
+    fn fmt(&self, f: &mut std::fmt::Formatter<'_>) -> std::fmt::Result {
+        write!(f, "JoinSet({})", self.set.len())
+    }
+}
+impl<T> Default for JoinSet<T> {
+    fn default() -> Self {
+        Self::new()
+    }
+}
+impl<T> JoinSet<T> {
+    /// new
+    pub fn new() -> Self {
+        Self {
+            set: FuturesUnordered::new(),
+        }
+    }
+    /// spawn
+    pub fn spawn<F: Future<Output = T> + Send + 'static>(&mut self, f: F)
+    where
+        T: Send + 'static,
+    {
+        self.set.push(spawn_inner(None, f));
+    }
+    /// join next
+    pub async fn join_next(&mut self) -> Option<Result<T, JoinErr>> {
+        self.set.next().await
+    }
+    /// len
+    pub fn len(&self) -> usize {
+        self.set.len()
+    }
+    /// empty
+    pub fn is_empty(&self) -> bool {
+        self.set.is_empty()
+    }
+}
+impl<T> Drop for JoinSet<T> {
+    fn drop(&mut self) {
+        for h in self.set.iter() {
+            h.abort();
+        }
+    }
+}
+
+/// virtual instant
+#[derive(Debug, Clone, Copy, PartialEq, Eq, PartialOrd, Ord, Hash)]
+pub struct Instant(u64);
+impl Instant {
+    /// now
+    pub fn now() -> Self {
+        Self(hooks().now_nanos())
+    }
+    /// elapsed
+    pub fn elapsed(&self) -> super::Duration {
+        Self::now().saturating_duration_since(*self)
+    }
+    /// sat
+    pub fn saturating_duration_since(&self, earlier: Instant) -> super::Duration {
+        super::Duration::from_nanos(self.0.saturating_sub(earlier.0))
+    }
+    /// dur since
+    pub fn duration_since(&self, earlier: Instant) -> super::Duration {
+        self.saturating_duration_since(earlier)
+    }
+    /// checked add
+    pub fn checked_add(&self, d: super::Duration) -> Option<Instant> {
+        let n = u64::try_from(d.as_nanos()).ok()?;
+        self.0.checked_add(n).map(Instant)
+    }
+}
+impl std::ops::Add<super::Duration> for Instant {
+    type Output = Instant;
+    fn add(self, d: super::Duration) -> Instant {
+        self.checked_add(d).expect("overflow when adding duration to instant")
+    }
+}
+impl std::ops::Sub<super::Duration> for Instant {
+    type Output = Instant;
+    fn sub(self, d: super::Duration) -> Instant {
+        Instant(self.0 - d.as_nanos() as u64)
+    }
+}
+impl std::ops::Sub<Instant> for Instant {
+    type Output = super::Duration;
+    fn sub(self, o: Instant) -> super::Duration {
+        self.saturating_duration_since(o)
+    }
+}
+impl std::ops::AddAssign<super::Duration> for Instant {
+    fn add_assign(&mut self, d: super::Duration) {
+        *self = *self + d;
+    }
+}
+
+/// sleep
+pub async fn sleep(dur: super::Duration) {
+    let now = hooks().now_nanos();
+    let d = u64::try_from(dur.as_nanos()).unwrap_or(u64::MAX);
+    hooks().sleep_until(now.saturating_add(d)).await
+}
+
+/// Interval
+#[derive(Debug, Clone)]
+pub struct Interval {
+    dur: super::Duration,
+    next_tick: Instant,
+}
+impl Interval {
+    /// tick
+    pub async fn tick(&mut self) {
+        let now = Instant::now();
+        if self.next_tick > now {
+            sleep(self.next_tick - now).await;
+        }
+        self.next_tick += self.dur;
+    }
+}
+/// interval
+pub fn interval(dur: super::Duration) -> Interval {
+    Interval {
+        dur,
+        next_tick: Instant::now(),
+    }
+}
+
+/// timeout
+pub async fn timeout<F, T>(dur: super::Duration, future: F) -> Result<T, super::Timeout>
+where
+    F: Future<Output = T>,
+{
+    let sl = sleep(dur);
+    futures::pin_mut!(sl);
+    futures::pin_mut!(future);
+    // poll the future first (like tokio): a ready future wins over an expired timer
+    std::future::poll_fn(|cx| {
+        if let Poll::Ready(v) = future.as_mut().poll(cx) {
+            return Poll::Ready(Ok(v));
+        }
+        if let Poll::Ready(()) = sl.as_mut().poll(cx) {
+            return Poll::Ready(Err(super::Timeout));
+        }
+        Poll::Pending
+    })
+    .await
+}
